@@ -210,6 +210,14 @@ def corpus():
                                   C("Add", False, 0, [("l", ("cls", 0)), ("r", ("cls", 0))]),
                                   C("Blk", False, 0, [("body", ("union", wrapped, "int"))])], 0, [1, 2, 3], expansion))
             out.append(gram.Spec([C("A0", True, None), C("Lit", False, 0, []), C("Blk", False, 0, [("body", ("union", "int", wrapped))])], 0, [1, 2], expansion))
+    # a nested abstract layer that is recursive and whose SHALLOWEST production needs three levels (While(Guard(Cond), Stmt)), beside a leaf:
+    # at limits 1 and 2 only the leaf fits, whatever phase a decider is in
+    for expansion in (False, True):
+        out.append(gram.Spec([C("Stmt", True, None), C("Skip", False, 0, []), C("Compound", True, 0), C("Cond", False, None, []),
+                              C("Guard", False, None, [("c", ("cls", 3))]), C("While", False, 2, [("g", ("cls", 4)), ("s", ("cls", 0))]),
+                              C("Seq", False, 2, [("a", ("cls", 0)), ("b", ("cls", 0)), ("g", ("cls", 4))])], 0, [1, 5, 6, 2, 3, 4], expansion))
+        out.append(gram.Spec([C("E", True, None), C("Lit", False, 0, []), C("Small", False, None, [("e", ("cls", 0))]), C("Mid", False, None, [("s", ("cls", 2))]),
+                              C("Big", False, 0, [("m", ("cls", 3))])], 0, [1, 4, 2, 3], expansion))
     # production weights, including weight 0 on the strictly shallowest production of a non-terminal: the depth-limited deciders do
     # not read weights, the minimum depth the grammar reports is the one creation can meet
     for expansion in (False, True):
